@@ -27,7 +27,7 @@ from .. import reuselib
 INEXACT = ["scale(a)", "scale(a, ddof=0)", "center(a) + scale(b)", "poly(a, 2)", "poly(a, 3):A", "bs(a, df=4)", "bs(a, df=5, degree=2, include_intercept=True)",
            "cr(a, df=3)", "cc(a, df=3)", "cr(a, df=4, constraints='center')", "C(A, contr.poly)", "C(A, contr.diff) + scale(a)", "C(A, contr.helmert(scale=True)):b",
            "standardize(a)", "bs(a, df=4):A", "np.log(b) + exp2(a)", "I(a * b) + {a + 1}", "lag(a) + a",
-           "I(scale(a) * scale(a))", "I(poly(a, 1) + poly(a, 1))", "I(scale(a) * scale(b)) + scale(a)", "I(center(scale(a)) - scale(a))"]
+           "hashed(A, levels=4) + a", "hashed(b, levels=3):a", "I(scale(a) * scale(a))", "I(poly(a, 1) + poly(a, 1))", "I(scale(a) * scale(b)) + scale(a)", "I(center(scale(a)) - scale(a))"]
 NOT_ROW_LOCAL = {"lag(a) + a"}   # lag is defined across rows: excluded by the property
 
 
@@ -56,6 +56,9 @@ def session_record(job):
         again = spec.get_model_matrix(T, context={})
         whole = spec.get_model_matrix(U, context={})
         part = spec.get_model_matrix(U.iloc[r].reset_index(drop=True), context={})
+        # the empty selection of follow-up rows is a selection: no rows, the recorded columns
+        none = spec.get_model_matrix(U.iloc[[]], context={})
+        rec["empty_ok"] = (numpy.asarray(none, dtype=float).shape == (0, len(spec.column_names))) and list(none.model_spec.column_names) == list(spec.column_names)
     except Exception as e:  # noqa
         rec["exc"] = type(e).__name__ + ": " + str(e)[:120]
         return rec
@@ -116,6 +119,8 @@ def run(ctx: Ctx) -> None:
         v = rejected.get(r["id"], "")
         if v:
             ctx.violation({"formula": r["formula"], "pickled": r["pickled"], "sel": r["sel"]}, {"clause": v, "witness": r["witness"], "names": r["names_whole"]}, kind="trace")
+        elif r.get("empty_ok") is False:
+            ctx.violation({"formula": r["formula"], "pickled": r["pickled"], "sel": []}, {"clause": "the empty selection of rows does not give a 0-row matrix with the recorded columns"}, kind="trace")
         elif len(set(r["sel"])) < len(r["sel"]):
             ctx.nontrivial.add(("T", r["id"]))
     ctx.notes["relation_leg_histories"] = len(good)
